@@ -4,12 +4,14 @@ package boxlib
 
 import (
 	"fmt"
+	"sort"
 	"strings"
 	"sync"
 	"time"
 
 	"github.com/IBM/TSS/msg"
 	tss "github.com/IBM/TSS/types"
+	"verif/dump"
 	"verif/explore"
 	"verif/harness"
 	"verif/shim/sched"
@@ -62,6 +64,9 @@ type Result struct {
 	Unfin    []string
 	Pending  int // messages still buffered at the end (reflection), -1 unknown
 	RaceFail bool
+	// Residue: after every topic of the scenario was started at the end (a Send on each), what the
+	// box still tracks: "charged <sender> <topic>" / "buffered <topic>"; nil if unknown
+	Residue []string
 }
 
 func Run(c *harness.C, sc Scenario, r *explore.Recorder) *Result {
@@ -112,6 +117,10 @@ func Run(c *harness.C, sc Scenario, r *explore.Recorder) *Result {
 				}
 			case "tick":
 				tick <- time.Time{}
+			case "epoch":
+				// the wall clock moves on by one sweep period, then the epoch clock ticks
+				time.Sleep(20 * time.Second)
+				tick <- time.Time{}
 			}
 		}
 		// the clock goroutine exists only after first use: initialise the box with a harmless
@@ -130,6 +139,14 @@ func Run(c *harness.C, sc Scenario, r *explore.Recorder) *Result {
 		time.Sleep(time.Second)
 		s := sched.New()
 		defer s.Close()
+		for _, th := range sc.Threads {
+			for _, st := range th {
+				if st.Kind == "epoch" {
+					// a thread asleep in virtual time is not a deadlock: let the scheduler advance far enough
+					s.Quantum, s.Horizon = 20*time.Second, 400
+				}
+			}
+		}
 		for i, th := range sc.Threads {
 			th := th
 			s.Go(fmt.Sprintf("T%d", i), func() {
@@ -142,6 +159,42 @@ func Run(c *harness.C, sc Scenario, r *explore.Recorder) *Result {
 		res.Deadlock = s.Deadlock
 		res.Unfin = s.WaitAll()
 		res.Trace = s.Trace
+		if Residue && len(res.Unfin) == 0 && !res.Deadlock {
+			s.Close()
+			topics := map[string]bool{}
+			for _, th := range append([][]Step{sc.Pre}, sc.Threads...) {
+				for _, st := range th {
+					if st.Topic != "" {
+						topics[st.Topic] = true
+					}
+				}
+			}
+			var ts []string
+			for t := range topics {
+				ts = append(ts, t)
+			}
+			sort.Strings(ts)
+			for _, t := range ts {
+				box.Send(uint8(tss.MsgTypeMPC), topicBytes(t), []byte("final"), 9)
+			}
+			res.Residue = []string{}
+			if tf, ok := dump.Field(box, "totalInFlightTopicsBySender"); ok {
+				it := tf.MapRange()
+				for it.Next() {
+					inner := it.Value().MapRange()
+					for inner.Next() {
+						res.Residue = append(res.Residue, fmt.Sprintf("charged %d %s", it.Key().Uint(), strings.TrimRight(inner.Key().String(), "\x00")))
+					}
+				}
+			}
+			if pm, ok := dump.Field(box, "pendingMessages"); ok {
+				it := pm.MapRange()
+				for it.Next() {
+					res.Residue = append(res.Residue, "buffered "+strings.TrimRight(it.Key().String(), "\x00"))
+				}
+			}
+			sort.Strings(res.Residue)
+		}
 		box.Stop()
 	})
 	_ = failedSub
@@ -162,12 +215,49 @@ func needsClock(sc Scenario) bool {
 	}
 	for _, th := range sc.Threads {
 		for _, s := range th {
-			if s.Kind == "tick" {
+			if s.Kind == "tick" || s.Kind == "epoch" {
 				return true
 			}
 		}
 	}
 	return false
+}
+
+// Residue switches the end-of-run bookkeeping inspection on (C15's thread-level family).
+var Residue bool
+
+// ResidueOracle: once every topic has started, nothing may stay charged or buffered. The class says
+// whether a receive call of that sender on that topic overlapped a Send's critical section (the
+// known check-then-act window) or not.
+func ResidueOracle(sc Scenario, res *Result, rp Replay, report func(clause, sig, detail string)) {
+	if res.Residue == nil {
+		return
+	}
+	for _, r := range res.Residue {
+		var sender uint16
+		var topic string
+		cls := "no-racing-send"
+		if n, _ := fmt.Sscanf(r, "charged %d %s", &sender, &topic); n == 2 {
+			for _, th := range append([][]Step{sc.Pre}, sc.Threads...) {
+				for _, st := range th {
+					if st.Kind == "R" && st.Sender == sender && st.Topic == topic {
+						c := res.Calls[st.ID]
+						for i, iv := range res.Sends[topic] {
+							if iv[0] < c[1] && c[0] < iv[1] && !(i < len(res.Fwd[topic]) && c[0] > res.Fwd[topic][i]) {
+								cls = "racing-send-receive-began-before-forward"
+							}
+						}
+					}
+				}
+			}
+		}
+		kind := strings.SplitN(r, " ", 2)[0]
+		mode := "concurrent"
+		if len(sc.Threads) == 1 {
+			mode = "sequential"
+		}
+		report("bookkeeping-released-once-started", "c15-"+kind+"-after-start:"+cls+":"+mode, fmt.Sprintf("scenario %s schedule %v: every topic was started at the end, yet the box still holds: %s", sc.Name, rp.Choices, r))
+	}
 }
 
 type Replay struct {
@@ -295,7 +385,22 @@ func Scenarios(thorough bool) []Scenario {
 	if thorough {
 		b3 = 3
 	}
+	// a held topic that stays in use: messages arrive 80 s apart (expiry: 120 s), an unrelated send
+	// drives the collector, then the topic starts: every message must come out
+	ep := func(n int) []Step {
+		var st []Step
+		for i := 0; i < n; i++ {
+			st = append(st, Step{Kind: "epoch"})
+		}
+		return st
+	}
+	held := []Step{R("m1", "X", 1)}
+	held = append(held, ep(4)...)
+	held = append(held, R("m2", "X", 1))
+	held = append(held, ep(4)...)
+	held = append(held, S("Y"), R("m3", "X", 1), S("X"))
 	var long []Scenario
+	long = append(long, Scenario{Name: "s13-held-topic-in-use-survives-gc", Threads: [][]Step{held}, Bound: 0})
 	for e := 5; e <= 20; e++ {
 		long = append(long, Scenario{Name: fmt.Sprintf("s12-long-lived-topic-%d-epochs", e), Threads: [][]Step{longLived(e)}, Bound: 0})
 	}
